@@ -129,7 +129,8 @@ func Equals(left, right Object) bool {
 }
 
 // Identical is exact, structural equality: the same type (an integer is not a float, +0.0 is not -0.0) and, for
-// arrays and maps, the same length with pairwise identical elements, keys and values. Equals (the == of the
+// arrays and maps, the same length with pairwise identical elements, keys and values; functions: same text and same
+// defining environment. Equals (the == of the
 // language) is coarser inside containers, where integers and floats are ordered together ([1] == [1.0]).
 // No dereference at the top: a Reference is not identical to the value it refers to (as with Equals).
 func Identical(a, b Object) bool {
@@ -163,6 +164,12 @@ func Identical(a, b Object) bool {
 			}
 		}
 		return true
+	case FUNC:
+		// Same text is not enough: two closures made by one maker print alike and capture different variables.
+		// Identical functions have the same text and the same defining environment (so re-running a definition,
+		// e.g. re-loading a state file, is still the same function).
+		fa, fb := a.(Function), b.(Function)
+		return fa.CacheKey == fb.CacheKey && fa.Env == fb.Env
 	default:
 		return Equals(a, b)
 	}
